@@ -263,4 +263,7 @@ def run(ctx):
     ctx.note('range clause not decided: %d truncating casts and %d assert/debug_assert sites in blend.rs depend on it' % (casts, asserts))
     # W6: the laws are stated over (layer opacity, cel opacity); both rasterisers must hand their product to the blend function
     render.opacity_and_mode(ctx, rule_o='W6', rule_m=None)
+    # and no pixel is exempted from the blend function by anything but the canvas clip (an 'identity shortcut' in the rasteriser
+    # bypasses every law above)
+    render.no_extra_skips(ctx, rule='W6')
     ctx.samples = [i for i in ctx.instances if i['rule'] in ('W2', 'W3', 'W4', 'W5', 'W6')][:16]
